@@ -28,6 +28,7 @@ struct State {
     // 2 -> n-1, 3 -> n/2, 4 -> 2  (reduced modulo n)
     std::vector<std::pair<uint64_t, int>> forced;
     uint64_t gmp_draws = 0;   // since set()
+    uint64_t gmp_budget = 4000; // draws of one call before it counts as not making progress
     uint64_t forced_fired = 0;
 };
 inline State &state()
